@@ -235,7 +235,11 @@ def env_step(R, a):
             fr, to = keys_of(a[2]), keys_of(a[3])
             if len(fr) != len(to):
                 raise Unknown()
-            if (len(set(fr)) != len(fr) or len(set(to)) != len(to) or set(fr) & set(to)
+            # identity pairs (k -> k) are "nothing to rename": they are dropped before the precondition
+            pairs = [(f, t) for f, t in zip(fr, to) if f != t]
+            idk = set(f for f, t in zip(fr, to) if f == t)
+            fr, to = [f for f, _ in pairs], [t for _, t in pairs]
+            if (len(set(fr)) != len(fr) or len(set(to)) != len(to) or set(fr) & set(to) or (set(fr) | set(to)) & idk
                     or any(t in e for t in to)):
                 raise Unknown()
             ne = {k: v for k, v in e.items() if k not in fr}
@@ -620,6 +624,10 @@ def rand_env_history(rng):
                 ok = (len(set(to)) == len(to) and not (set(to) & set(fr)) and not any(t in bound for t in to))
                 if not ok:
                     continue
+                if len(fr) >= 2 and rng.random() < 0.3:
+                    # an identity pair (k renamed to k: "nothing to rename") before / between real pairs
+                    i = rng.randrange(len(fr) - 1)
+                    to[i] = fr[i]
             o = "rename,%d,%s,%s" % (r, fmt_keys(fr), fmt_keys(to))
         elif c < 0.80:
             o = "%s,%d" % (rng.choice(["top", "bot", "top"]), regs())
